@@ -64,19 +64,42 @@ def _differs(a, b):
         return True
 
 
+_GUARD = None
+
+
+def process_guard():
+    """one guard per process: the first snapshot is taken in the parent right after the library was imported (clean state, inherited
+    by the forked workers); modules imported later are added when first seen"""
+    global _GUARD
+    if _GUARD is None:
+        _GUARD = StateGuard()
+    else:
+        _GUARD.scan()
+    return _GUARD
+
+
 class StateGuard:
     def __init__(self):
         self.items = []      # (object, snapshot)
         self.caches = []     # (lru wrapper, currsize at snapshot)
-        seen = set()
+        self.attrs = []      # (owner class / module, name, value) — plain attributes that code may rebind (counters, 'last state')
+        self.seen = set()
+        self.mods = set()
+        self.scan()
+
+    def scan(self):
+        seen = self.seen
         for name, mod in list(sys.modules.items()):
-            if mod is None or not (name == PREFIX or name.startswith(PREFIX + ".")):
+            if mod is None or not (name == PREFIX or name.startswith(PREFIX + ".")) or name in self.mods:
                 continue
+            self.mods.add(name)
             for k, v in list(vars(mod).items()):
                 if k.startswith("__") or k == "_sx_":
                     continue
                 if isinstance(v, types.ModuleType):
                     continue
+                if v is None or isinstance(v, (int, float, str, bytes, tuple, frozenset, bool)):
+                    self.attrs.append((mod, k, v))
                 self._visit(v, seen, mod.__name__)
 
     def _visit(self, v, seen, modname, depth=0):
@@ -117,9 +140,17 @@ class StateGuard:
                     continue
                 if issubclass(v, enum.Enum) and k2.startswith("_"):
                     continue
+                if v2 is None or isinstance(v2, (int, float, str, bytes, tuple, frozenset, bool)) and not issubclass(v, enum.Enum):
+                    self.attrs.append((v, k2, v2))
                 self._visit(v2, seen, modname, depth + 1)
 
     def restore(self):
+        for owner, name, val in self.attrs:
+            try:
+                if getattr(owner, name, val) is not val:
+                    setattr(owner, name, val)
+            except Exception:
+                pass
         for o, s in self.items:
             _restore(o, s)
         for c, size in self.caches:
